@@ -29,6 +29,10 @@ impl Cryptor {
     /// Generate a suitable random salt.
     #[cfg(any(test, feature = "cloud", feature = "server-git"))] // server-sync uses the clientId as the salt.
     pub(super) fn gen_salt() -> Result<Vec<u8>> {
+        #[cfg(gothenburgbitfactory_taskchampion_verif)]
+        if let Some(salt) = crate::server::verif::next_salt() {
+            return Ok(salt);
+        }
         let rng = rand::SystemRandom::new();
         let mut salt = [0u8; 16];
         rng.fill(&mut salt)
